@@ -22,7 +22,7 @@ type kindDef struct {
 var (
 	annKeys  = []string{"ak", "ak1", "ak1.x", "ak2", "ak3", "verif/k4"}
 	envKeys  = []string{"E", "E1", "E1_X", "E2", "E3", "PATH"}
-	mntKeys  = []string{"/m0", "/m1", "/m1/sub", "/m2", "/m3", "/etc/m4"}
+	mntKeys  = []string{"/m0", "/m1", "/m1/sub", "/m2", "/m2/", "/m3//x", "/m1/./sub", "/etc/m4"}
 	devKeys  = []string{"/dev/d0", "/dev/d1", "/dev/d1x", "/dev/d2", "/dev/d3"}
 	cdiKeys  = []string{"vendor.com/class=dev0", "vendor.com/class=dev1", "vendor.com/class=dev2", "other.org/c=d"}
 	rlimKeys = []string{"RLIMIT_NOFILE", "RLIMIT_NPROC", "RLIMIT_CORE", "RLIMIT_AS", "RLIMIT_STACK"}
@@ -644,6 +644,12 @@ func systematicSpecs() []sysSpec {
 						pats = append(pats, "lone-removal-between")
 					}
 				}
+				if p == "create-adjust" && k.removable && k.keyed && d.n >= 3 {
+					pats = append(pats, "remove-many-then-set")
+				}
+				if p != "create-adjust" && d.n >= 3 && d.b-d.a >= 2 {
+					pats = append(pats, "collision-after-ignored-drop", "ignored-partial-drop")
+				}
 				for _, pat := range pats {
 					for _, oh := range []bool{false, true} {
 						if oh && !(p == "create-adjust" || p == "update-own") {
@@ -740,10 +746,69 @@ func (g *mgen) genSystematic(id string, s sysSpec) *MCase {
 		put(s.A, false, true)
 		put(s.A+1, true, false)
 		put(s.B, false, true)
+	case "remove-many-then-set":
+		// A sets three keys of the family; the next plugin removes all three in one response; B sets the
+		// second and third again: must succeed
+		keys := []string{kd.keys[0], kd.keys[1], kd.keys[2]}
+		ra := &c.Resp[s.A]
+		ra.Adjust = &api.ContainerAdjustment{}
+		for _, k := range keys {
+			g.adjSet(ra.Adjust, s.Kind, k, false)
+		}
+		rm := &c.Resp[s.A+1]
+		rm.Adjust = &api.ContainerAdjustment{}
+		for _, k := range keys {
+			g.adjRemove(rm.Adjust, s.Kind, k)
+		}
+		rb := &c.Resp[s.B]
+		if rb.Adjust == nil {
+			rb.Adjust = &api.ContainerAdjustment{}
+		}
+		if s.B == s.A+1 {
+			g.adjSet(rb.Adjust, s.Kind, keys[1], false)
+		} else {
+			g.adjSet(rb.Adjust, s.Kind, keys[1], false)
+			g.adjSet(rb.Adjust, s.Kind, keys[2], false)
+		}
+	case "collision-after-ignored-drop", "ignored-partial-drop":
+		// A sets X on the target. The plugin after it sends two updates for the target: the first sets Y
+		// (succeeds), the second, flagged ignore-failure, sets Z (a field handled before X) and X: it
+		// conflicts and is dropped whole. "collision": B then sets Y as well -> must fail.
+		// "partial": B sets something unrelated -> must succeed, and nobody may see Z.
+		other := func(not ...string) (string, string) {
+			for _, cand := range []string{"mem.limit", "mem.reservation", "cpu.shares", "cpu.quota"} {
+				ok := cand != s.Kind
+				for _, n := range not {
+					if n == cand {
+						ok = false
+					}
+				}
+				if ok {
+					return cand, ""
+				}
+			}
+			return "cpu.period", ""
+		}
+		yk, ykey := other()
+		zk, zkey := other(yk)
+		put(s.A, false, true)
+		mid := &c.Resp[s.A+1]
+		u1 := &api.ContainerUpdate{ContainerId: target, Linux: &api.LinuxContainerUpdate{}}
+		g.setResField(ensureRes(&u1.Linux.Resources), yk, ykey, false)
+		u2 := &api.ContainerUpdate{ContainerId: target, Linux: &api.LinuxContainerUpdate{}, IgnoreFailure: true}
+		g.setResField(ensureRes(&u2.Linux.Resources), zk, zkey, false)
+		g.setResField(ensureRes(&u2.Linux.Resources), s.Kind, key, false)
+		mid.Updates = append(mid.Updates, u1, u2)
+		if s.Pattern == "collision-after-ignored-drop" {
+			ub := &api.ContainerUpdate{ContainerId: target, Linux: &api.LinuxContainerUpdate{}}
+			g.setResField(ensureRes(&ub.Linux.Resources), yk, ykey, false)
+			c.Resp[s.B].Updates = append(c.Resp[s.B].Updates, ub)
+		}
 	}
 	// innocents: unrelated annotation / resource fields from their own partitions
 	for p := 0; p < s.N; p++ {
-		if p == s.A || p == s.B || (s.Pattern == "lone-removal-between" && p == s.A+1) {
+		if p == s.A || p == s.B || ((s.Pattern == "lone-removal-between" || s.Pattern == "remove-many-then-set" ||
+			s.Pattern == "collision-after-ignored-drop" || s.Pattern == "ignored-partial-drop") && p == s.A+1) {
 			continue
 		}
 		r := &c.Resp[p]
